@@ -88,7 +88,7 @@ def ord1(ctx: Ctx, K):
                    "quoting step would survive as a dot segment", where(fi, node), sample="argument is quoted text")
 
 
-def ord2(ctx: Ctx):
+def ord2(ctx: Ctx, K=None):
     model = ctx.model
     rule = "ORD2"
     ctx.rule(rule, floor=6, what="normalise iff authority and '.' in the quoted path, at every entry point that can introduce dots")
@@ -115,7 +115,16 @@ def ord2(ctx: Ctx):
                 if normalised:
                     groups.setdefault((id(node), "norm"), [node, f"normalised path {show(path)[:60]}", "b", []])[3].append(n_truth is True)
                 elif new_text:
-                    dotfree = any((not fv) and any(t[0] == "cmp" and t[1] == "In" and t[2] == ("const", ".") for t in walk(k)) for k, fv in f.items())
+                    dotfree = False
+                    for k, fv in f.items():
+                        if fv:
+                            continue
+                        for t in walk(k):
+                            if t[0] == "cmp" and t[1] == "In" and t[2] == ("const", "."):
+                                # the dot test must look at *quoted* text: quoting decodes %2E into '.'
+                                kd = K.kind(t[3], f, fi, None, r) if K is not None else frozenset()
+                                if not (kd & {DEC, RAW, UNK}):
+                                    dotfree = True
                     encoded_flag = truth(("param", "encoded"), f) is True if "encoded" in fi.params else False
                     groups.setdefault((id(node), "raw"), [node, f"un-normalised path {show(path)[:60]}", "a", []])[3].append(
                         n_truth is False or dotfree or encoded_flag or truth(path, f) is False)
